@@ -7,6 +7,17 @@ VERIF = os.path.dirname(os.path.dirname(os.path.abspath(__file__)))
 ALL = ["C%02d" % i for i in range(1, 18)]
 
 CHECKS = {
+    "C12": dict(
+        level="model_checking", design="6 (C12), 3.4",
+        text="Validate.tla states well-formedness twice (declarative IllFormed, operational Check machine in the compiler's "
+             "pass order); TLC checks that both agree and that every single injected fault (13 classes x every site of 3 "
+             "bases) yields exactly its class, and emits each case. Every case is rendered at several line shifts, "
+             "compiled by the real CLI with all six outputs, and the observed exit status / diagnostics / files are "
+             "validated by TLC against TraceValidate.tla (reject => non-zero exit, a diagnostic of the class at the line, "
+             "no file; accept => exit 0, no diagnostic, files).",
+        note="Message text is mapped to offence classes by lenient keyword match; columns are ignored; the fault universe "
+             "is class x site over three hand-written bases plus every documented option value on the accept side.",
+        technique="TLC model checking of Validate.tla + TLC-enumerated fault cases replayed into the CLI + TLC trace validation"),
     "C13": dict(
         level="model_checking", design="6 (C13), 3.8",
         text="Pipeline.tla (design: generators never consult map order) is model-checked exhaustively by TLC; the real "
